@@ -124,7 +124,7 @@ class Ctx:
         if self.tier == "thorough":
             return thorough
         if self.boost and isinstance(quick, int) and isinstance(thorough, int) and not isinstance(quick, bool):
-            return max(quick, min(thorough, quick * 8))      # a second tie is not in force: search up to 8x harder than the quick tier
+            return max(quick, min(thorough, quick * 4))      # a second tie is not in force: search up to 4x harder than the quick tier
         return thorough if self.boost else quick
 
 
@@ -472,7 +472,7 @@ def main():
         print(l)
     if getattr(ctx, "second_tie", None) and ctx.second_tie != "in force":
         print(f"NOTE property={prop} second tie (definitions translated from the Python source) {ctx.second_tie[:300]} — the property's theorems "
-              "stay tied to the code by the correspondence check; the search ran at up to 8x the quick scale")
+              "stay tied to the code by the correspondence check; the search ran at up to 4x the quick scale")
     print(f"{prop} tier={args.tier} seed={args.seed}: obligations={coverage.get('obligations')} discharged={coverage.get('discharged')} "
           f"evaluations={coverage['evaluations']} disagreements={len(corr_bad)} violations={n_viol} wall={wall:.1f}s")
     return exit_code
